@@ -392,6 +392,13 @@ func (p *Party) Fund(ctx context.Context, req channel.FundingReq) error {
 	}
 	t := time.NewTimer(challenge(req.Params))
 	defer t.Stop()
+	// a select with several ready cases draws from the runtime's own random
+	// source, which no seed controls: decide the ready-at-entry case by priority
+	select {
+	case <-fundedCh:
+		return nil
+	default:
+	}
 	select {
 	case <-fundedCh:
 		return nil
@@ -874,6 +881,11 @@ func (l *Ledger) schedule(sub *Subscription, e channel.AdjudicatorEvent) {
 
 // Next implements channel.AdjudicatorSubscription.
 func (s *Subscription) Next() channel.AdjudicatorEvent {
+	select { // a closed subscription wins over a pending event (priority instead of the runtime's random choice)
+	case <-s.closed:
+		return nil
+	default:
+	}
 	select {
 	case e := <-s.events:
 		return e
